@@ -6,6 +6,7 @@ import (
 	"fmt"
 	"sort"
 	"strings"
+	"time"
 )
 
 // scenario is one finished execution: the incarnations in order, the stream of accepted
@@ -37,6 +38,7 @@ const (
 	compStop     = "radius.AccountingManager.StopSession"
 	compDrain    = "radius.AccountingManager.Stop(drain)"
 	compRecovery = "radius.AccountingManager.Start(recovery)"
+	compShutdown = "radius.AccountingManager.Stop"
 	compInterim  = "radius.AccountingManager.sendInterimUpdate"
 )
 
@@ -124,6 +126,9 @@ func phaseAtCrash(sn *scenario, f *sessFacts, i int) string {
 		}
 	}
 	if k < 0 {
+		if g, ok := openAtGracefulStop(sn, f); ok {
+			return "open-at-graceful-stop(" + sn.incs[g].Def.Shutdown.classLabel() + ")"
+		}
 		return "end-of-script"
 	}
 	in := sn.incs[k]
@@ -174,7 +179,49 @@ func phaseAtCrash(sn *scenario, f *sessFacts, i int) string {
 	return "active"
 }
 
+// openAtGracefulStop reports the first incarnation that ended with a graceful Stop() while the
+// session had been passed to StartSession and no StopSession call for it had succeeded (from
+// the journals: API calls and their results only).
+func openAtGracefulStop(sn *scenario, f *sessFacts) (int, bool) {
+	if f.startInc < 0 {
+		return 0, false
+	}
+	for k := f.startInc; k < len(sn.incs); k++ {
+		if f.stopOK && f.stopInc <= k {
+			return 0, false
+		}
+		in := sn.incs[k]
+		if in.Def.End != "graceful" || (sn.kill != nil && k == sn.kill.k) {
+			continue
+		}
+		for _, e := range in.J {
+			if e.Ev == "shutdown-end" {
+				return k, true
+			}
+		}
+	}
+	return 0, false
+}
+
+// queueSentDuringStop reports whether the journal of an incarnation shows a queue transmission
+// (meant to be answered) after the graceful Stop() was called.
+func queueSentDuringStop(j []JEv) bool {
+	after := false
+	for _, e := range j {
+		if e.Ev == "shutdown-begin" {
+			after = true
+		}
+		if after && e.Ev == "req" && !e.Down && e.Name == "retry:before-send" {
+			return true
+		}
+	}
+	return false
+}
+
 func compOfPhase(p string) string {
+	if strings.HasPrefix(p, "open-at-graceful-stop") {
+		return compShutdown
+	}
 	switch p {
 	case "in-StartSession":
 		return compStart
@@ -200,6 +247,55 @@ func judge(sn *scenario) {
 	mode := "no-crash"
 	if crash {
 		mode = "crash"
+	}
+	// An incarnation that ran in real time (server hanging during the shutdown) is only judged when
+	// every transmission the harness meant to be answered was answered: on a loaded machine a
+	// client time-out can expire by itself, and that is not an outage pattern the script chose.
+	for k, in := range sn.incs {
+		if !in.Def.Realtime {
+			continue
+		}
+		up, acc := 0, 0
+		for _, e := range in.J {
+			if e.Ev == "req" && !e.Down {
+				up++
+			}
+		}
+		for _, r := range sn.log {
+			if r.Inc == k {
+				acc++
+			}
+		}
+		if up != acc {
+			run.Count("realtime_scenarios_not_judged_timing", 1)
+			run.Inconclusive(fmt.Sprintf("script=%s inc=%d", sc.ID, k), fmt.Sprintf("real-time incarnation: %d transmissions were meant to be answered, the server accepted %d (time-out by load); not judged", up, acc))
+			return
+		}
+		// ... and was answered well inside the client's time-out (an answer that arrives after it
+		// makes the client send the record again, which the server then has twice)
+		limit := 3 * time.Second
+		if in.Def.ClientTimeoutMs > 0 {
+			limit = time.Duration(in.Def.ClientTimeoutMs) * time.Millisecond
+		}
+		for x, e := range in.J {
+			if e.Ev != "req" || e.Down {
+				continue
+			}
+			want := strings.TrimSuffix(e.Name, ":before-send") + ":after-send"
+			for _, a := range in.J[x+1:] {
+				if a.Ev != "point" || a.Name != want {
+					continue
+				}
+				t0, err0 := time.ParseDuration(e.VT)
+				t1, err1 := time.ParseDuration(a.VT)
+				if err0 == nil && err1 == nil && t1-t0 > limit/2 {
+					run.Count("realtime_scenarios_not_judged_timing", 1)
+					run.Inconclusive(fmt.Sprintf("script=%s inc=%d", sc.ID, k), fmt.Sprintf("real-time incarnation: an exchange with the reachable server took %v of the client's %v time-out (machine load); not judged", t1-t0, limit))
+					return
+				}
+				break
+			}
+		}
 	}
 	budgetText := fmt.Sprintf("refused transmissions in total <= MaxRetries-2=%d", sc.MaxRetries-2)
 	phasedClass := ""
@@ -389,13 +485,82 @@ func judge(sn *scenario) {
 				if f.stopOK {
 					how = "stopped-by-StopSession"
 				}
+				comp := stopPath(f, second)
+				if g, ok := openAtGracefulStop(sn, f); ok && !f.stopOK && sn.incs[g].Def.Shutdown != nil {
+					// a shutdown configuration of its own: name it, and name Stop() as the place
+					how = "open-at-graceful-stop(" + sn.incs[g].Def.Shutdown.classLabel() + ")"
+					comp = compShutdown
+					if second.Inc > g {
+						where = "after-graceful-restart"
+					}
+				}
+				if k := p.stops[0].Inc; second.Inc > k && k < len(sn.incs) && sn.incs[k].Def.End == "graceful" && queueSentDuringStop(sn.incs[k].J) {
+					// The first Stop reached the server while Stop() was running and the queue processor
+					// made a transmission then: Stop() cancels the processor's exchanges, and one that the
+					// server has already answered stays in the queue. One class whatever had ended the session.
+					comp, where, how = compShutdown, "after-graceful-restart", "queue-transmission-while-Stop()-ran"
+				}
 				w := base()
 				w["session"] = s.ID
 				w["stops"] = streamStr(p.stops)
-				run.Violation(stopPath(f, second), "stop-acknowledged-once", where+"/"+how,
+				for k, in := range sn.incs {
+					if in.Def.End == "graceful" && k+1 < len(sn.incs) {
+						w[fmt.Sprintf("directory_after_graceful_stop_of_incarnation_%d", k)] = in.DirAfter
+					}
+				}
+				run.Violation(comp, "stop-acknowledged-once", where+"/"+how,
 					fmt.Sprintf("no crash anywhere, yet %d Accounting-Stops for %s were accepted: %v; script %s", len(p.stops), s.ID, streamStr(p.stops), sc.String()), w)
 			} else if len(p.stops) == 1 {
 				run.Count("no_crash_sessions_with_exactly_one_stop", 1)
+			}
+		}
+	}
+
+	// ---- what the graceful stops of this scenario looked like (un-killed runs only)
+	if sn.kill == nil {
+		for k := 0; k+1 < len(sn.incs); k++ {
+			in := sn.incs[k]
+			if in.Def.End != "graceful" {
+				continue
+			}
+			label := in.Def.Shutdown.label()
+			nOpen := 0
+			for i := range sc.Sessions {
+				g, ok := openAtGracefulStop(sn, facts[i])
+				if !ok || g != k {
+					continue
+				}
+				nOpen++
+				later := 0
+				for _, r := range ps[i].stops {
+					if r.Inc > k {
+						later++
+					}
+				}
+				if later == 1 && len(ps[i].stops) == 1 {
+					run.Count("graceful-restart: session open at Stop() ["+label+"] got its one Stop after the restart", 1)
+				}
+			}
+			hang, refused := 0, 0
+			after := false
+			for _, e := range in.J {
+				if e.Ev == "shutdown-begin" {
+					after = true
+				}
+				if after && e.Ev == "req" && e.Down {
+					if e.Mode == "hang" {
+						hang++
+					} else {
+						refused++
+					}
+				}
+			}
+			run.Count("graceful_stop ["+label+"]", 1)
+			run.Count("graceful_stop_transmissions_unanswered_server_hanging", hang)
+			run.Count("graceful_stop_transmissions_refused_during_shutdown", refused)
+			run.Distinct("graceful_stop_config_x_open_sessions_x_directory", fmt.Sprintf("%s | open=%d | %s", label, nOpen, dirShape(in.DirAfter)))
+			if in.Def.Shutdown != nil && (nOpen > 0 || dirShape(in.DirAfter) != "sessions=0 pending=0") {
+				run.Nontrivial("graceful/" + sc.ID + "/" + fmt.Sprint(k))
 			}
 		}
 	}
